@@ -15,16 +15,26 @@ META = {
 
 def configs(tier):
     cs = []
-    def add(sp, mp=1, **kw):
+    def add(sp, mp=1, hist=0, **kw):
         kw.setdefault('solver_timeout_ms', 30000)
-        cs.append(Config(short(sp), 'C03', [sp, 0], max_paths=mp, **kw))
+        cs.append(Config(short(sp) + ('-hist%d' % hist if hist else ''), 'C03', [sp, 0, hist], max_paths=mp, **kw))
     if tier == 'quick':
         add(spec('global', 'clenshaw-curtis', 2, 1, 2)); add(spec('global', 'gauss-legendre', 2, 1, 3)); add(spec('global', 'leja', 2, 2, 3, 'iptotal', aniso=1)); add(spec('global', 'chebyshev', 1, 1, 6)); add(spec('global', 'fejer2', 2, 1, 2, transform=1))
         add(spec('sequence', 'rleja', 2, 1, 4)); add(spec('sequence', 'min-delta', 1, 1, 8)); add(spec('sequence', 'leja', 3, 1, 2))
         add(spec('fourier', 'fourier', 1, 1, 1)); add(spec('fourier', 'fourier', 2, 1, 1))
         add(spec('localp', 'localp', 2, 1, 2, order=1), 16); add(spec('localp', 'semi-localp', 1, 1, 3, order=2), 12); add(spec('localp', 'localp-boundary', 2, 1, 1, order=1), 12); add(spec('localp', 'localp-boundary', 3, 1, 2, order=1), 24); add(spec('localp', 'semi-localp', 3, 1, 2, order=2), 24); add(spec('localp', 'localp', 3, 1, 2, order=1), 16); add(spec('localp', 'localp', 1, 1, 3, order=3), 12)
         add(spec('wavelet', 'wavelet', 1, 2, 1, order=1), 10)
+        # the same exactness on grids reached through update / copy / round trip (rules that use alpha and beta included)
+        add(spec('global', 'gauss-jacobi', 2, 1, 3, alpha=2.0, beta=0.5), hist=1); add(spec('global', 'gauss-hermite', 2, 1, 3, alpha=2.0), hist=1); add(spec('global', 'clenshaw-curtis', 2, 1, 2), hist=2)
+        add(spec('global', 'gauss-gegenbauer', 2, 1, 3, alpha=1.5), hist=3); add(spec('sequence', 'rleja', 2, 1, 4), hist=1); add(spec('fourier', 'fourier', 2, 1, 1), hist=1)
     else:
+        for h in (1, 2, 3):
+            for rule, ab in (('gauss-jacobi', (2.0, 0.5)), ('gauss-jacobi-odd', (0.0, 3.0)), ('gauss-gegenbauer', (1.5, None)), ('gauss-hermite', (2.0, None)), ('gauss-laguerre', (1.0, None)), ('gauss-legendre', (None, None)),
+                             ('clenshaw-curtis', (None, None)), ('leja', (None, None)), ('chebyshev', (None, None)), ('gauss-patterson', (None, None))):
+                unb = 'laguerre' in rule or 'hermite' in rule
+                add(spec('global', rule, 2, 1, 2 if rule in ('clenshaw-curtis', 'gauss-patterson', 'gauss-jacobi-odd') else 3, alpha=ab[0], beta=ab[1]), hist=h)
+                if not unb: add(spec('global', rule, 2, 2, 2, 'iptotal', aniso=1, transform=1, alpha=ab[0], beta=ab[1]), hist=h)
+            add(spec('sequence', 'rleja', 2, 1, 4), hist=h); add(spec('sequence', 'min-delta', 2, 2, 3, transform=1), hist=h); add(spec('fourier', 'fourier', 2, 1, 1), hist=h); add(spec('fourier', 'fourier', 1, 1, 2), hist=h)
         for rule in NESTED_GLOBAL + NON_NESTED:
             if rule == 'clenshaw-curtis-zero': continue
             fast = rule in ('clenshaw-curtis', 'fejer2', 'gauss-patterson', 'rleja-double2', 'rleja-double4', 'rleja-shifted-double')
